@@ -44,6 +44,7 @@ const (
 	fidF4         = "C08-F4"     // second stale strategy result deadlocks consensus manager and state machine
 	fidRestartFin = "C02-F1"     // second restart during commit wait re-enters a finalized height
 	fidA7b        = "C03-A7b"    // mirror: entrance for a round beyond the committing round of the committing height
+	fidStranded   = "C10-SM1"    // live machine more than a height behind: jump-ahead slot overwritten with another height, machine wedged
 	fidResign     = "C02-RESIGN" // restart in a round with a recorded vote: strategy consulted and signer called again
 )
 
@@ -460,6 +461,12 @@ func kernelStacks() string {
 }
 
 func (s *sim) candFor(h uint64, r uint32, k int) *candidate {
+	if k%smMaxCands == 0 {
+		if c := s.w.reproposal(h, r); c != nil {
+			s.labels["certified-block-reproposed"] = true
+			return c
+		}
+	}
 	pc := s.mm.voting.PrevCommit
 	if s.mm.committing != nil && s.mm.committing.H == h {
 		pc = s.mm.committing.PrevCommit
@@ -1365,6 +1372,7 @@ func (m *mirror) digest() string {
 }
 
 type smResult struct {
+	stranded                               bool // not in sync, and the mirror jump-ahead slot holds a view of another height
 	synced                                 bool
 	posH                                   uint64
 	posR                                   uint32
@@ -1437,6 +1445,11 @@ func runSim(outer *testing.T, st *vk.Stats, c smCase, mode string) (res smResult
 			}
 		}()
 		res.synced = s.fail == nil && s.synced()
+		if h, _, ok := s.smPos(); ok && !res.synced && s.pendingEnt == nil && s.mm.jumpAhead != nil && s.mm.jumpAhead.H != h {
+			// The only thing the mirror still holds for this machine is a jump-ahead view of a later
+			// height, which its view manager never hands out for a machine on another height.
+			res.stranded = true
+		}
 		res.posH, res.posR, _ = s.smPos()
 		res.mmDigest = s.mm.digest()
 		res.deadEnd = s.deadEnd
@@ -1469,6 +1482,9 @@ func runSim(outer *testing.T, st *vk.Stats, c smCase, mode string) (res smResult
 		s.teardown()
 		s.rootCancel()
 
+		if w.twoBlocks {
+			s.labels["network-decided-two-blocks"] = true
+		}
 		res.fail = s.fail
 		res.skips = s.skips
 		res.resign = s.model.resign
